@@ -721,6 +721,7 @@ impl C05 {
     fn gen(&self, seed: u64) -> (Workload, Scn) {
         let mut r = Rng::stream(seed, "workload");
         let mut o = WlOpts::default();
+        o.bad_expectations = true;
         // a quarter of the workloads carry adversarial-but-grammatical rules, so that
         // evaluation errors (whose messages list rule / variable names) are exercised too
         o.gen.adversarial = r.chance(1, 4);
